@@ -750,7 +750,7 @@ Lemma instances_ok :
   oracle_ok (c_ser c_st) (c_de c_st) (c_wf c_st) /\ oracle_ok (c_ser c_ns) (c_de c_ns) (c_wf c_ns) /\
   oracle_ok (c_ser c_sb) (c_de c_sb) (c_wf c_sb) /\
   prog_ok PID_A 8 DISC_FX /\ prog_ok PID_A 8 DISC_BV /\ prog_ok PID_B 1 DISC_ST /\ prog_ok PID_C 4 DISC_NS /\
-  prog_ok PID_A 8 DISC_SB.
+  prog_ok PID_A 8 DISC_SB /\ prog_ok PID_B 1 DISC_ZD.
 Proof.
   split; [apply codec_oracle, c_fx_ok|]. split; [apply codec_oracle, c_bv_ok|].
   split; [apply codec_oracle, c_st_ok|]. split; [apply codec_oracle, c_ns_ok|].
